@@ -2,12 +2,15 @@
 
 Metamorphic relation monitor: every case is a *family* of related
 neutron_scattering calls on one multiset of atoms (base call, density x k,
-all counts x c, regroupings / permutations through strings, dicts, nested
-structures and Formula arithmetic, energy= against wavelength=, a vector call
-against the scalar calls), generated together so that a replay re-executes the
-whole family.  No reference model is involved; the in-process contracts on
+the density given as natural_density= to a string, a dict and a Formula object
+with or without a density of its own, all counts x c, regroupings /
+permutations through strings, dicts, nested structures and Formula
+arithmetic, energy= against wavelength=, a vector call against the scalar
+calls, the vector being ONE mutable buffer that is edited in place and passed
+again), generated together so that a replay re-executes the whole family.  No reference model is involved; the in-process contracts on
 nsf._calculate_scattering and on the three conversion functions fire on
-internal calls too."""
+internal calls too; an input-immutability monitor watches the
+wavelength / energy arguments of the five entry points."""
 import json
 import math
 
@@ -16,13 +19,17 @@ from ..statemon import Reach, FPMonitor
 RULE = ('one case = one family of related neutron_scattering calls on a random multiset of 1-8 atoms with neutron data '
         '(elements, isotopes, energy-dependent entries, ions): base, density*k, counts*c, 2-4 regroupings/permutations '
         '(formula strings with random bracketing, {atom: count} dicts, nested structures, Formula arithmetic), energy= '
-        'vs wavelength=, one vector of 1-7 wavelengths (list or numpy array) vs the scalar calls; plus conversion cases '
+        'vs wavelength=, one vector of 1-7 wavelengths (list or numpy array) vs the scalar calls, the same list/array object then '
+        'edited in place 1-2 times (rotate, reverse, one item, rescale, refill) and passed again with no call in between; '
+        'natural_density= (value, value*k) for the compound as string, dict and Formula object with/without its own density, '
+        'and density= against a Formula object carrying another density; plus conversion cases '
         '(E, lambda, v scalars and vectors) and the documented anchors. distinct = distinct (sorted atom keys, forms '
         'and tree shapes of the renderings, vector length/container/energy-or-wavelength) of families that are '
         'non-trivial, i.e. have at least two atom occurrences or a vector of length >= 2; conversion cases count by '
         '(function, container, length)')
 TECHNIQUE = ('runtime monitoring: metamorphic relation monitor over families of related calls, icontract postconditions '
              'on nsf._calculate_scattering / neutron_wavelength / neutron_energy / neutron_wavelength_from_velocity, '
+             'input-immutability monitor on the wavelength/energy arguments, '
              'sys.monitoring branch-reach counters, numpy floating-point exception monitor')
 LEVEL_TEXT = ('Random compounds over all atoms with neutron data are pushed through families of related calls and the '
               'documented relations between the results are checked to 1e-10 (1e-12 for the unit conversions); the '
@@ -31,7 +38,7 @@ LEVEL_TEXT = ('Random compounds over all atoms with neutron data are pushed thro
 LEVEL_NOTE = ('Trusted: numpy, the physical constants in periodictable.constants (used only for the 1e-12 conversion '
               'postconditions and cross-pinned by the documented anchors), the compound generator pvmon/gen/compounds.py '
               '(self-checked: every rendering tree is folded back to the multiset before use).')
-SHARDS = {'quick': 4, 'thorough': 16}
+SHARDS = {'quick': 6, 'thorough': 16}
 TIMEOUT = {'quick': 300, 'thorough': 2400}
 ASSUMPTIONS = ['thermal/cold range taken as wavelength 0.05..50 Angstrom (energy 0.03..33000 meV)',
                'densities 1e-3..25 g/cm^3 (10 %: 1e-15..1e-3), density factors k in 1e-2..1e2 (15 %: 1e-12..1e12), count factors c in 1e-3..1e4, all positive',
@@ -41,7 +48,12 @@ ASSUMPTIONS = ['thermal/cold range taken as wavelength 0.05..50 Angstrom (energy
                '1e-13*(coh+abs+inc) (Re b_c has both signs; measured: relative error 2e-7 of the real SLD on correct code '
                'for an H/D mixture tuned to cancel, 1.4e-17 in units of that floor scale)',
                'formula strings avoid the two white-space patterns D24/D25 (they belong to C01)',
-               'natural_density= is not used (its ion/isotope handling is C12, candidate defect D10)',
+               'natural_density= is a way of stating the density: the value given in the call decides (also for a Formula object that '
+               'carries a density of its own), an explicit density= likewise; what natural_density means for isotopes and ions is C12 - '
+               'here only (a) scaling it by k, (b) independence of the way the compound is passed and (c) natural_density=d equals '
+               'density=d for compounds of neutral natural-abundance elements are demanded',
+               'a vector result describes the values the wavelength/energy object holds at the time of the call; the caller may edit '
+               'its own list/array in place between calls and no call may modify it',
                'a NaN in any output is reported as a violation (the relations are equalities between numbers)',
                'periodictable.constants are data']
 
@@ -235,6 +247,8 @@ def setup(ctx):
         ctx.note('sys.monitoring could not be started: %r' % (exc,))
     _state['reach'] = reach
     _state['fpe'] = FPMonitor().start()
+    from ..ref.neutron import ArgumentGuard          # only the wrapper class; no reference model is used here
+    _state['guard'] = ArgumentGuard.install(nsf)     # after Reach: the counters watch the original code objects
 
 
 # --------------------------------------------------------------------------
@@ -324,16 +338,65 @@ def _family(ctx, index, G, uni, table):
         wls[rng.randrange(n)] = wls[0]                   # repeated wavelength, unsorted order is the rule anyway
     case['vector'] = {'wavelengths': wls, 'container': rng.choice(['list', 'array']),
                       'via': 'energy' if (rng.random() < 0.25 and not ints) else 'wavelength', 'ints': ints}
+    case['vector']['edits'] = _buffer_edits(rng, wls, ints)
     case['energy_scalar_type'] = rng.choice(['float', 'float', 'np.float64'])
+    # density given as natural_density=: string, dict, Formula object with / without a density of its own
+    its = G.split_some(rng, items) if rng.random() < 0.3 else list(items)
+    tree = G.make_tree(rng, its) if rng.random() < 0.7 else G.flat_tree(rng.sample(its, len(its)))
+    if G.denote(tree) != G.total(items):
+        raise AssertionError('generator self-check failed: tree %r does not denote %r' % (tree, G.total(items)))
+    r = rng.random()
+    case['nd'] = {'value': _log_uniform(rng, 1e-3, 25.0), 'k': _log_uniform(rng, 1e-2, 1e2),
+                  'text': G.render_string(tree, table, rng),
+                  'own': None if r < 0.25 else '%.3f' % _log_uniform(rng, 0.05, 25.0),
+                  'own_via': 'keyword' if r < 0.7 else 'at',
+                  'scaled_form': rng.choice(['object', 'object', 'object', 'string', 'dict'])}
     return case
+
+
+def _buffer_edits(rng, wls, ints):
+    """1-2 in-place edits of the wavelength buffer, stated in wavelengths (an energy buffer gets the equivalent
+    energies): rotate / reverse (a pure permutation: no new scalar calls needed), one item, rescale, refill."""
+    cur = list(wls)
+    edits = []
+    for _ in range(1 if rng.random() < 0.7 else 2):
+        ops = ['item', 'item', 'refill']
+        if len(cur) > 1 and len(set(cur)) > 1:
+            ops += ['roll', 'roll', 'reverse']
+        if not ints:
+            ops += ['scale', 'scale']
+        op = rng.choice(ops)
+        new = (lambda: float(rng.randint(1, 30))) if ints else (lambda: _log_uniform(rng, 0.05, 50.0))
+        if op == 'scale':
+            lo, hi = max(0.2, 0.05 / min(cur)), min(5.0, 50.0 / max(cur))
+            if not lo < hi:
+                op = 'refill'
+            else:
+                f = float('%.6g' % _log_uniform(rng, lo, hi))
+                cur = [w * f for w in cur]
+                edits.append({'op': 'scale', 'f': f})
+        if op == 'refill':
+            cur = [new() for _ in cur]
+            edits.append({'op': 'refill', 'wavelengths': list(cur)})
+        elif op == 'item':
+            j = rng.randrange(len(cur))
+            cur[j] = new()
+            edits.append({'op': 'item', 'j': j, 'wavelength': cur[j]})
+        elif op == 'roll':
+            cur = cur[-1:] + cur[:-1]
+            edits.append({'op': 'roll'})
+        elif op == 'reverse':
+            cur.reverse()
+            edits.append({'op': 'reverse'})
+    return edits
 
 
 def generate(ctx):
     import periodictable as pt
     from ..gen import compounds as G
     uni = _state['uni']
-    nfam = ctx.scale(800, 3000)
-    nconv = ctx.scale(250, 800)
+    nfam = ctx.scale(540, 3000)
+    nconv = ctx.scale(170, 800)
     yield 'anchors', {}
     for j in range(nfam):
         index = j * ctx.nshards + ctx.shard
@@ -528,6 +591,115 @@ def _scalar(kind, value):
     return float(value)
 
 
+def _edit_buffer(nsf, buf, edit, via, ints):
+    """Apply one in-place edit to the caller's wavelength / energy buffer (list or ndarray); the same object is
+    then passed to the next call."""
+    import numpy as np
+
+    def value(w):
+        if via == 'energy':
+            return float(nsf.neutron_energy(w))
+        return int(w) if ints else w
+
+    op = edit['op']
+    is_list = isinstance(buf, list)
+    if op == 'refill':
+        buf[:] = [value(w) for w in edit['wavelengths']]
+    elif op == 'item':
+        buf[edit['j']] = value(edit['wavelength'])
+    elif op == 'scale':
+        f = edit['f'] if via == 'wavelength' else 1.0 / edit['f'] ** 2
+        if is_list:
+            for j in range(len(buf)):
+                buf[j] = buf[j] * f
+        else:
+            buf *= f
+    elif op == 'roll':
+        if is_list:
+            buf.insert(0, buf.pop())
+        else:
+            buf[:] = np.roll(buf, 1)
+    elif op == 'reverse':
+        if is_list:
+            buf.reverse()
+        else:
+            buf[:] = buf[::-1].copy()
+    else:
+        raise ValueError('unknown buffer edit %r' % (op,))
+
+
+def _guard_drain(ctx, what):
+    """Failures of the input-immutability monitor become violations of the current family."""
+    g = _state.get('guard')
+    while g is not None and g.failures:
+        f = g.failures.pop(0)
+        ctx.evaluated(what='input-immutability')
+        ctx.violation('%s: %s modified its %s argument in place: %s before the call, %s after'
+                      % (what, f['function'], f['argument'], f['before'], f['after']), relation='immutability',
+                      symptom='mutated-argument', **f)
+
+
+def _natural_density_relations(ctx, case, base, wla, keys):
+    """The density stated through natural_density=: (a) string, dict and Formula object (with or without a
+    density of its own) give the same numbers for the same value, (b) value*k scales SLDs and cross sections
+    by k and the penetration depth by 1/k, (c) an explicit density= decides over the object's own density,
+    (d) for neutral natural-abundance elements natural_density=d is density=d."""
+    import periodictable as pt
+    from ..gen import compounds as G
+    uni = _state['uni']
+    nd = case['nd']
+    v, k, text, own = nd['value'], nd['k'], nd['text'], nd.get('own')
+    rho = case['density']
+    ctx.count('natural_density.families')
+    s_res = _flat7(ctx, 'natural_density= string', _call(ctx, 'natural_density= string', text,
+                                                         natural_density=v, wavelength=wla))
+    _nonneg(ctx, 'natural_density= string', s_res)
+    as_dict = G.build_dict(case['atoms'], uni)
+    what = 'natural_density=%r via dict vs string %r' % (v, text)
+    got = _flat7(ctx, what, _call(ctx, what, as_dict, natural_density=v, wavelength=wla))
+    _compare(ctx, what, got, s_res, 'natural_density.form')
+    # the Formula object, possibly carrying a density of its own (a one-atom formula has the element density)
+    if own is None:
+        obj, how = pt.formula(text), 'formula(%r)' % text
+    elif nd.get('own_via') == 'at':
+        obj, how = pt.formula(text + '@' + own), 'formula(%r)' % (text + '@' + own)
+    else:
+        obj, how = pt.formula(text, density=float(own)), 'formula(%r, density=%s)' % (text, own)
+    carried = obj.density
+    ctx.count('natural_density.object_with_own_density' if carried is not None else 'natural_density.object_without_density')
+    if own is not None:
+        ctx.evaluated(what='formula.density')
+        if carried is None or not ctx.close(carried, float(own), rel=1e-12):
+            ctx.violation('%s has density %r' % (how, carried), relation='natural_density.form', symptom='value')
+    what = 'natural_density=%r via %s (own density %r) vs string' % (v, how, carried)
+    got = _flat7(ctx, what, _call(ctx, what, obj, natural_density=v, wavelength=wla))
+    _nonneg(ctx, what, got)
+    _compare(ctx, what, got, s_res, 'natural_density.form')
+    # (b) scaling
+    form = nd.get('scaled_form', 'object')
+    target = {'object': obj, 'string': text, 'dict': as_dict}[form]
+    what = 'natural_density*%r via %s' % (k, how if form == 'object' else form)
+    got = _flat7(ctx, what, _call(ctx, what, target, natural_density=v * k, wavelength=wla))
+    _nonneg(ctx, what, got)
+    want = s_res.copy()
+    want[:6] *= k
+    want[6] /= k
+    _compare(ctx, what, got, want, 'natural_density.scale')
+    # (c) explicit density= decides
+    if carried is not None:
+        what = 'density=%r via %s (own density %r) vs base' % (rho, how, carried)
+        got = _flat7(ctx, what, _call(ctx, what, obj, density=rho, wavelength=wla))
+        _compare(ctx, what, got, base, 'density.explicit_wins')
+    # (d) neutral natural-abundance elements only: natural_density is the density
+    if all(A == 0 and q == 0 for _Z, A, q in keys):
+        ctx.count('natural_density.natural_neutral_families')
+        want = base.copy()
+        want[:6] *= v / rho
+        want[6] /= v / rho
+        _compare(ctx, 'natural_density=%r vs density=%r (neutral natural elements only) for %r' % (v, rho, text),
+                 s_res, want, 'natural_density.is_density')
+
+
 # --------------------------------------------------------------------------
 # checks
 # --------------------------------------------------------------------------
@@ -574,6 +746,10 @@ def _family_body(ctx, case):
     want[6] /= k
     _compare(ctx, 'density*%r' % k, got, want, 'density')
 
+    # 2b. the density given as natural_density= -------------------------------
+    if case.get('nd'):
+        _natural_density_relations(ctx, case, base, wla, keys)
+
     # 3. regroup / reorder / counts * c ---------------------------------------
     for v in case['variants']:
         obj = _build(v)
@@ -599,36 +775,47 @@ def _family_body(ctx, case):
     _nonneg(ctx, 'energy=', got)
     _compare(ctx, 'energy=%r vs wavelength=%r' % (float(E), wl), got, base, 'energy')
 
-    # 5. vector call vs scalar calls --------------------------------------------
+    # 5. vector call vs scalar calls; the vector is ONE buffer, edited in place and passed again ----------
     vec = case['vector']
     wls = vec['wavelengths']
     n = len(wls)
-    if vec['via'] == 'energy':
-        es = [float(nsf.neutron_energy(w)) for w in wls]
-        arg = {'energy': _container(vec['container'], es)}
+    via, ints = vec['via'], vec.get('ints', False)
+    if via == 'energy':
+        buf = _container(vec['container'], [float(nsf.neutron_energy(w)) for w in wls])
     else:
-        arg = {'wavelength': _container(vec['container'], wls, vec.get('ints', False))}
-    what = 'vector(%s, n=%d, %s)' % (vec['via'], n, vec['container'])
-    snapshot = list(arg.values())[0]
-    snapshot = snapshot.copy() if hasattr(snapshot, 'copy') else list(snapshot)
-    gotv = _flat7(ctx, what, _call(ctx, what, f0, density=rho, **arg), n=n)
-    _nonneg(ctx, what, gotv)
-    after = list(arg.values())[0]
-    if list(np.asarray(after).tolist()) != list(np.asarray(snapshot).tolist()):
-        ctx.violation('%s: the wavelength/energy argument was modified by the call' % what, relation='vector',
-                      symptom='mutated-argument')
-    ctx.count('vector.n%d.%s.%s' % (n, vec['container'], vec['via']))
-    cols = []
-    for i, w in enumerate(wls):
-        if vec['via'] == 'energy':
-            r = _call(ctx, 'scalar energy #%d' % i, f0, density=rho, energy=es[i])
-        else:
-            r = _call(ctx, 'scalar wavelength #%d' % i, f0, density=rho, wavelength=w)
-        col = _flat7(ctx, 'scalar call #%d' % i, r)
-        _nonneg(ctx, 'scalar call #%d' % i, col)
-        cols.append(col[:, 0])
-    wantv = np.array(cols).T
-    _compare(ctx, what, gotv, wantv, 'vector')
+        buf = _container(vec['container'], wls, ints)
+    has_edep = any(uni.is_edep(key) for key in keys)
+    runs = []                      # (label, values held by the buffer at the call, 7 x n result)
+    for step, edit in enumerate([None] + list(vec.get('edits') or [])):
+        what = 'vector(%s, n=%d, %s)' % (via, n, vec['container'])
+        if edit is not None:
+            _edit_buffer(nsf, buf, edit, via, ints)
+            what += ' after %d call(s) with the same object, edited in place (%s)' % (step, edit['op'])
+            ctx.count('buffer.op.' + edit['op'])
+            if has_edep and via == 'wavelength':
+                ctx.count('buffer.reuse_with_edep.' + vec['container'])
+        held = buf.tolist() if isinstance(buf, np.ndarray) else list(buf)
+        gotv = _flat7(ctx, what, _call(ctx, what, f0, density=rho, **{via: buf}), n=n)    # no other call in between
+        _guard_drain(ctx, what)
+        after = buf.tolist() if isinstance(buf, np.ndarray) else list(buf)
+        if after != held:
+            ctx.violation('%s: the %s argument was modified by the call: %r -> %r' % (what, via, held, after),
+                          relation='vector', symptom='mutated-argument')
+        _nonneg(ctx, what, gotv)
+        runs.append((what, held, gotv.copy()))
+    ctx.count('vector.n%d.%s.%s' % (n, vec['container'], via))
+    scalar = {}
+    for what, held, gotv in runs:
+        cols = []
+        for i, x in enumerate(held):
+            if repr(x) not in scalar:
+                r = _call(ctx, 'scalar %s=%r' % (via, x), f0, density=rho, **{via: x})
+                col = _flat7(ctx, 'scalar call %s=%r' % (via, x), r)
+                _nonneg(ctx, 'scalar call %s=%r' % (via, x), col)
+                scalar[repr(x)] = col[:, 0]
+            cols.append(scalar[repr(x)])
+        _compare(ctx, '%s, %s values %r' % (what, via, held), gotv, np.array(cols).T, 'vector')
+    _guard_drain(ctx, 'family')
 
     # distinct non-trivial family signature
     if len(rows) >= 2 or n >= 2:
@@ -762,6 +949,19 @@ def finish(ctx):
         fpe.export(ctx)
     for k, v in _state['n'].items():
         ctx.count(k, v)
+    g = _state.get('guard')
+    if g is not None:
+        ctx.count('immutability.evaluations', g.evaluations)
+        for name, num in g.by_function.items():
+            ctx.count('immutability.' + name, num)
+        g.evaluations = 0
+        g.by_function.clear()
+    ctx.require('immutability.evaluations', 1, 'the input-immutability monitor never compared a mutable argument')
+    for container in ('array', 'list'):
+        ctx.require('buffer.reuse_with_edep.' + container, 1,
+                    'no call re-used an in-place edited %s wavelength buffer with an energy-dependent atom' % container)
+    ctx.require('natural_density.object_with_own_density', 1, 'natural_density= never met a Formula object with its own density')
+    ctx.require('natural_density.object_without_density', 1, 'natural_density= never met a Formula object without density')
     uni = _state['uni']
     ctx.info['universe'] = {k: len(v) for k, v in uni.classes.items()}
     for name in ('contract._calculate_scattering', 'contract.neutron_wavelength', 'contract.neutron_energy',
